@@ -846,6 +846,21 @@ where
     W::Item: RcbWeight,
     W::Iter: rayon::iter::IndexedParallelIterator,
 {
+    // Validate the lengths before building the frame, like rcb does.
+    let weights = weights.into_par_iter();
+    if weights.len() != partition.len() {
+        return Err(Error::InputLenMismatch {
+            expected: partition.len(),
+            actual: weights.len(),
+        });
+    }
+    if points.len() != partition.len() {
+        return Err(Error::InputLenMismatch {
+            expected: partition.len(),
+            actual: points.len(),
+        });
+    }
+
     let obb = match OrientedBoundingBox::from_points(points) {
         Some(v) => v,
         // No points, hence no frame to build: rcb still validates the lengths.
